@@ -1,8 +1,8 @@
 CONSTANTS
   FixLostTail = FALSE
-  MismatchResync = TRUE
-  MaxMsgs = 6
-  MaxFaults = 6
+  MismatchResync = FALSE
+  MaxMsgs = 4
+  MaxFaults = 3
   TailLoss = FALSE
   AppendOnlyWhenAligned = TRUE
 SPECIFICATION MCSpec
